@@ -401,7 +401,7 @@ pub fn check_def() -> PropertyCheck {
   PropertyCheck {
     id: "C12",
     scenarios: vec![Box::new(C12Des), Box::new(C12Threads)],
-    runs: (100_000, 12_000_000),
+    runs: (250_000, 12_000_000),
     rule: "DES case = flavour x initial value x history of <=12 ops (next, next_by, clone, subscribe, unsubscribe-one, peek, complete, error) through up to 3 clones, compared with a (value, live list) model; thread case = 1-2 producer threads x 1-3 items + optional late subscriber thread on BehaviorSubject<_, SubjectThreads> under a seeded lock-level schedule; non-trivial = >=1 subscriber and >=3 ops (DES) / a decision with >1 eligible thread (threads)",
     assumptions: vec!["sequentially consistent execution"],
   }
